@@ -385,7 +385,67 @@ def alias_rules(check):
             check.ok("MESH-FROZEN", "%d mesh methods" % n, "no method other than the constructors changes in place an array or container held by the mesh (including through arrays returned by other methods)")
 
 
+_DTYPE_EXAMPLE = '''
+class m:
+    def bad(self, pL, pR):
+        out = []
+        for i in range(1):
+            out.append(np.zeros_like(pL[i]))
+            for c in range(len(pL[i])):
+                out[i][c] = pL[i][c]**2/2
+        return out
+    def good(self, pL, pR):
+        out = [np.zeros(len(pL[0]))]
+        for c in range(len(pL[0])):
+            out[0][c] = pL[0][c]**2/2
+        return out
+    def good2(self, pL, pR):
+        out = np.zeros_like(pL[0])
+        out[:] = pL[0]
+        return out
+'''
+_dt_ok = None
+
+
+def dtype_example():
+    global _dt_ok
+    if _dt_ok is not None:
+        return
+    tmp = tempfile.mkdtemp(prefix="fdcheck_dtype_example_")
+    try:
+        os.makedirs(os.path.join(tmp, "flowdyn"))
+        open(os.path.join(tmp, "flowdyn", "__init__.py"), "w").close()
+        with open(os.path.join(tmp, "flowdyn", "example.py"), "w") as fh:
+            fh.write("import numpy as np\n" + _DTYPE_EXAMPLE)
+        proj = Project(tmp)
+        got = {f.name: len(pointwise.dtype_follow(proj, f)) for ci in proj.all_classes() for f in ci.methods.values()}
+        if got != {"bad": 1, "good": 0, "good2": 0}:
+            raise AnalysisError("DTYPE-FOLLOW built-in example: got %s" % got)
+        _dt_ok = True
+    finally:
+        shutil.rmtree(tmp, ignore_errors=True)
+
+
+def dtype_rule(check):
+    """C02: a flux evaluated on integer-typed states (np.arange, lists of ints) must not truncate"""
+    if check.pid != "C02":
+        return
+    from .fluxes import flux_kernels
+    dtype_example()
+    n = bad = 0
+    for key in ("convection", "burgers", "shallowwater", "euler1d", "euler2d"):
+        for f, names in flux_kernels(check.proj, key):
+            n += 1
+            for ln, buf, store in pointwise.dtype_follow(check.proj, f):
+                bad += 1
+                check.violation("DTYPE-FOLLOW", f.qualname, "the result buffer `%s` takes the dtype of the input states and receives the floating-point value `%s`: for integer-typed states the flux is truncated silently (F(1,1) = 0 for u^2/2)" % (buf, store),
+                                "%s:%d" % (f.module.relpath, ln), key="dtype")
+    if not bad:
+        check.ok("DTYPE-FOLLOW", "%d flux kernels" % n, "no result buffer inherits the dtype of the input states while receiving floating-point values; built-in example: 1 truncating store reported, 2 safe twins silent")
+
+
 def run(check):
+    check.guarded("DTYPE-FOLLOW", "flux kernels", lambda: dtype_rule(check))
     check.guarded("STATE-MEMO", "scope of %s" % check.pid, lambda: state_memo(check))
     check.guarded("ALIAS", "scope of %s" % check.pid, lambda: alias_rules(check))
     check.guarded("KERNEL-POINTWISE", "kernels of %s" % check.pid, lambda: kernel_pointwise(check))
